@@ -190,6 +190,36 @@ def rerun(ids, tier="quick"):
             shutil.rmtree(d, ignore_errors=True)
 
 
+ALL = ["C%02d" % i for i in range(1, 21)]
+
+
+def cross(ids, tier="quick"):
+    """run every property's check against each kept change: which other checks notice it?"""
+    ids = ids or sorted(os.listdir(SEEDED))
+    for sid in ids:
+        dst = os.path.join(SEEDED, sid)
+        mp = os.path.join(dst, "meta.json")
+        if not os.path.isfile(mp):
+            continue
+        meta = json.load(open(mp))
+        d = tempfile.mkdtemp(prefix="seeded-", dir="/tmp")
+        repo = os.path.join(d, "repo")
+        try:
+            copy_repo(repo)
+            rc, out = sh("patch -p1 --no-backup-if-mismatch < %s" % os.path.join(dst, "patch.diff"), repo)
+            if rc != 0:
+                print(sid, "patch no longer applies")
+                continue
+            res = run_checks(repo, ALL, tier)
+            meta["cross"] = {k: v["verdict"] for k, v in res.items()}
+            meta["checks"][meta["property"]] = res[meta["property"]]
+            with open(mp, "w") as f:
+                json.dump(meta, f, indent=1)
+            print(sid, "caught by:", [k for k, v in res.items() if v["verdict"] == "caught"], "inconclusive:", [k for k, v in res.items() if v["verdict"] == "inconclusive"])
+        finally:
+            shutil.rmtree(d, ignore_errors=True)
+
+
 def table():
     rows = []
     for sid in sorted(os.listdir(SEEDED)):
@@ -209,6 +239,8 @@ if __name__ == "__main__":
         sys.exit(0 if validate(a[1], a[2], a[3], props, opts.get("--tier", "quick")) else 1)
     elif a and a[0] == "rerun":
         rerun(a[1:], opts.get("--tier", "quick"))
+    elif a and a[0] == "cross":
+        cross(a[1:], opts.get("--tier", "quick"))
     elif a and a[0] == "table":
         table()
     else:
